@@ -49,6 +49,25 @@ var KindExits = map[string]int{
 	"A": 1, "AR": 1, "Es": 1, "Est": 1, "Eo": 1, "Eot": 1, "Em": 1, "W": 2, "WT": 2, "S": 2, "R": 2, "D": 2, "N": 1,
 }
 
+// ActionSets lets a check add node kinds "A:<name>": a node with the given action list and one
+// exit. The function receives the flow and node index (for unique action UUIDs).
+var ActionSets = map[string]func(f, i int) []any{}
+
+// ActUUID makes a deterministic action UUID for custom action sets.
+func ActUUID(f, i, a int) string { return actUUID(f, i, a) }
+
+// Exits returns the number of exits of a node kind.
+func Exits(kind string) int {
+	if strings.HasPrefix(kind, "A:") {
+		return 1
+	}
+	n, ok := KindExits[kind]
+	if !ok {
+		panic("unknown node kind " + kind)
+	}
+	return n
+}
+
 // RefsOther reports whether the flow enters the "other" flow.
 func (f FlowSpec) RefsOther() bool {
 	for _, n := range f.Nodes {
@@ -199,7 +218,11 @@ func renderNode(f, i int, n Node, other int) J {
 			"default_category_uuid": catUUID(f, i, 1),
 		}
 	default:
-		panic("unknown node kind " + n.Kind)
+		if fn, ok := ActionSets[strings.TrimPrefix(n.Kind, "A:")]; ok && strings.HasPrefix(n.Kind, "A:") {
+			node["actions"] = fn(f, i)
+		} else {
+			panic("unknown node kind " + n.Kind)
+		}
 	}
 	return node
 }
@@ -226,7 +249,7 @@ func EnumFlows(kinds []string, n int) []FlowSpec {
 			return
 		}
 		for _, k := range kinds {
-			ne := KindExits[k]
+			ne := Exits(k)
 			dests := make([]int, ne)
 			var recD func(e int)
 			recD = func(e int) {
